@@ -389,7 +389,7 @@ theorem w2_special (c : Cfg) (s s' : State) (u : Nat) (inp : Inp) (l : Act)
             refine ⟨b, hwk, by simp [upd, versionBump], j, rfl, hw.2, ?_⟩
             split
             · exact Or.inl ⟨j + 1, rfl, by omega⟩
-            · simp only [afterStores, hwk, if_true]; exact Or.inr (Or.inl rfl)
+            · simp only [afterStores, hwk, if_true]; exact Or.inr (Or.inl trivial)
       · left; exact ⟨by rw [hver']; simp [upd, hsl], by rw [hwb']⟩
     · intro sl v hc
       rw [hp] at hc
@@ -402,7 +402,7 @@ theorem w2_special (c : Cfg) (s s' : State) (u : Nat) (inp : Inp) (l : Act)
       refine ⟨b', hwk, hv, k, hk1, hk2, ?_⟩
       split
       · exact Or.inl ⟨j + 1, rfl, by omega⟩
-      · simp only [afterStores, hwk, if_true]; exact Or.inr (Or.inl rfl)
+      · simp only [afterStores, hwk, if_true]; exact Or.inr (Or.inl trivial)
   · -- fence
     rw [hp] at hwf
     have hw : b.wf c ∧ 0 < b.g.n := hwf
@@ -431,14 +431,13 @@ theorem w2_special (c : Cfg) (s s' : State) (u : Nat) (inp : Inp) (l : Act)
       rcases hcase with ⟨j', e, _⟩ | e | ⟨j', e, hj⟩ | ⟨j', cur, e, _⟩ | ⟨cur, e, _⟩ | ⟨j', e, _⟩ <;> cases e
       exact ⟨rfl, hj⟩
     obtain ⟨rfl, hjk⟩ := hb
-    have hpc' : s'.pc u = _ := by rw [← h]; exact setPc_self _ _ _
     -- later slots keep their obligation whatever happens at slot j
     have later : j < k → (nextWake b' j).cond c sl v := by
       intro hlt
       have : j + 1 < b'.g.n := by omega
       simp only [nextWake, this, if_true]
       exact ⟨b', hwk, hv, k, hk1, hk2, Or.inr (Or.inr (Or.inl ⟨j + 1, rfl, by omega⟩))⟩
-    rw [hpc']
+    rw [← h, setPc_self]
     by_cases hjk' : j < k
     · left
       split
@@ -461,7 +460,7 @@ theorem w2_special (c : Cfg) (s s' : State) (u : Nat) (inp : Inp) (l : Act)
           rw [word_bit s _ hgt', ← v16_word, ← hv]
           have : v16 (s.word (b'.g.slot c k)) = v16 (b'.g.E c + versionBump) := by
             apply Classical.byContradiction; intro hcon; exact heq hcon
-          rw [this, v16_idem]
+          rw [this]
   · -- CAS-clear
     rw [hp] at hwf
     have hw : b.wf c ∧ j < b.g.n := hwf
@@ -597,9 +596,9 @@ theorem asleep_origin (c : Cfg) (s s' : State) (u : Nat) (inp : Inp) (l : Act)
         | (cases h; done)
         | (simp only [Option.some.injEq, Prod.mk.injEq] at h
            first
-             | exact notAsleep _ _ h.1.symm (by simp)
+             | exact notAsleep _ _ h.1.symm (fun x1 c1 => na x1 c1 _)
              | exact notAsleep _ _ h.1.symm (fun x1 c1 => nh x1 c1 _ _)
-             | exact notAsleep _ _ h.1.symm (fun x1 c1 => na x1 c1 _))
+             | exact notAsleep _ _ h.1.symm (fun x1 c1 e => by cases e))
   all_goals
     exfalso
     have hcalm : (s'.pc u).waitVal = none := by
